@@ -3,10 +3,25 @@
 #include "mp/flat/redef/MIP/converter_mip.h"
 #include "mp/flat/model_api_connect.h"
 #include "recmodelapi.h"
+#include "rec_c04_impl.h"
 
 namespace mp {
 std::unique_ptr<BasicModelManager>
 CreateRecModelMgr(RecCommon &cc, Env &e, pre::BasicValuePresolver *&pPre) {
-  return CreateModelMgrWithFlatConverter<RecModelAPI, MIPFlatConverter>(cc, e, pPre);
+  // same steps as CreateModelMgrWithFlatConverter<RecModelAPI, MIPFlatConverter>(cc, e, pPre),
+  // keeping the converter pointer so that C04 can log the range constraints behind Range2Slk entries
+  using SolverFlatCvt = FlatCvtImpl<MIPFlatConverter, RecModelAPI>;
+  using SolverProblemFlattener = mp::ProblemFltImpl<mp::ProblemFlattener, mp::Problem, SolverFlatCvt>;
+  auto pcvt = new SolverProblemFlattener(e);
+  auto res = CreateModelManagerWithStdBuilder(std::unique_ptr<BasicConverter<mp::Problem> >{pcvt});
+  pcvt->GetFlatCvt().GetModelAPI().set_other(&cc);
+  cc.set_other(&pcvt->GetFlatCvt().GetModelAPI());
+  pPre = &pcvt->GetFlatCvt().GetValuePresolver();
+  if (cc.st())
+    cc.st()->rangecon = [pcvt](bool quad, int i) -> std::string {
+      if (quad) return rec::data(pcvt->GetFlatCvt().template GetConstraint<QuadConRange>(i));
+      return rec::data(pcvt->GetFlatCvt().template GetConstraint<LinConRange>(i));
+    };
+  return res;
 }
 }  // namespace mp
